@@ -81,31 +81,22 @@ Qed.
 
 (* ---- the TCP option walk ---- *)
 
-Lemma tcp_opts_fuel fuel : forall d n,
-  (length d <= fuel)%nat -> tcp_opts fuel d n <> Err OUT_OF_FUEL.
+Lemma tcp_opts_fuel fuel : forall d,
+  (length d <= fuel)%nat -> snd (tcp_opts fuel d) <> OUT_OF_FUEL.
 Proof.
-  induction fuel as [|f IH]; intros d n Hl.
+  induction fuel as [|f IH]; intros d Hl.
   - destruct d; cbn in *; [discriminate|lia].
-  - destruct d as [|k r]; cbn [tcp_opts]; [discriminate|].
+  - destruct d as [|k r]; cbn [tcp_opts]; [cbn; discriminate|].
     cbn [length] in Hl.
-    destruct (k =? 0)%N; [discriminate|].
-    destruct (k =? 1)%N; [apply IH; lia|].
-    destruct r as [|l r']; [discriminate|].
-    destruct (l <? 2)%N eqn:El; [discriminate|].
-    destruct (Z.of_N l >? zlen (k :: l :: r')) eqn:Eg; [discriminate|].
-    apply IH. rewrite skipn_length. cbn [length] in *. lia.
-Qed.
-
-Lemma tcp_opts_no_panic fuel : forall d n s, tcp_opts fuel d n <> Panic s.
-Proof.
-  induction fuel as [|f IH]; intros d n s.
-  - destruct d; cbn; discriminate.
-  - destruct d as [|k r]; cbn [tcp_opts]; [discriminate|].
-    destruct (k =? 0)%N; [discriminate|].
-    destruct (k =? 1)%N; [apply IH|].
-    destruct r as [|l r']; [discriminate|].
-    destruct (l <? 2)%N; [discriminate|].
-    destruct (Z.of_N l >? zlen (k :: l :: r')); [discriminate|]. apply IH.
+    destruct (k =? 0)%N; [cbn; discriminate|].
+    destruct (k =? 1)%N.
+    { specialize (IH r ltac:(lia)). destruct (tcp_opts f r) as [os c]. exact IH. }
+    destruct r as [|l r']; [cbn; discriminate|].
+    destruct (l <? 2)%N eqn:El; [cbn; discriminate|].
+    destruct (Z.of_N l >? zlen (k :: l :: r')) eqn:Eg; [cbn; discriminate|].
+    assert (Hs : (length (skipn (N.to_nat l) (k :: l :: r')) <= f)%nat).
+    { rewrite skipn_length. cbn [length] in *. lia. }
+    specialize (IH _ Hs). destruct (tcp_opts f (skipn (N.to_nat l) (k :: l :: r'))) as [os c]. exact IH.
 Qed.
 
 (* the walk ends on a single byte that is neither End-of-list nor Nop: the layout on
@@ -116,34 +107,146 @@ Inductive lone_kind : bytes -> Prop :=
 | lone_skip k l r : (2 <= k)%N -> (2 <= l)%N -> Z.of_N l <= zlen (k :: l :: r) ->
                     lone_kind (skipn (N.to_nat l) (k :: l :: r)) -> lone_kind (k :: l :: r).
 
-(* the repaired walk reports exactly those layouts with its new error *)
-Lemma tcp_opts_lone_iff fuel : forall d n,
-  (length d <= fuel)%nat -> (tcp_opts fuel d n = Err 5 <-> lone_kind d).
+(* what the loop leaves in hdr.Options and what it returns, as a relation on the option
+   bytes: one entry per iteration - End-of-list (last entry, the rest is padding), Nop,
+   kind+length option (skipped as a whole), or the entry of the failing iteration *)
+Inductive opt_walk : bytes -> list opt -> Z -> Prop :=
+| ow_done : opt_walk [] [] 0
+| ow_eol r : opt_walk (0%N :: r) [(0%N, 1%N)] 0
+| ow_nop r os c : opt_walk r os c -> opt_walk (1%N :: r) ((1%N, 1%N) :: os) c
+| ow_lone k : (2 <= k)%N -> opt_walk [k] [(k, 0%N)] 5
+| ow_short k l r : (2 <= k)%N -> (l < 2)%N -> opt_walk (k :: l :: r) [(k, l)] 3
+| ow_over k l r : (2 <= k)%N -> (2 <= l)%N -> Z.of_N l > zlen (k :: l :: r) ->
+                  opt_walk (k :: l :: r) [(k, l)] 4
+| ow_opt k l r os c : (2 <= k)%N -> (2 <= l)%N -> Z.of_N l <= zlen (k :: l :: r) ->
+                      opt_walk (skipn (N.to_nat l) (k :: l :: r)) os c ->
+                      opt_walk (k :: l :: r) ((k, l) :: os) c.
+
+(* the executable walk computes exactly that relation: for every byte string, with no
+   bound on the number of entries *)
+Lemma tcp_opts_walk_iff fuel : forall d os c,
+  (length d <= fuel)%nat -> (tcp_opts fuel d = (os, c) <-> opt_walk d os c).
 Proof.
-  induction fuel as [|f IH]; intros d n Hl.
-  - destruct d; cbn in *; [|lia]. split; [discriminate|]. intros H; inversion H.
+  induction fuel as [|f IH]; intros d os c Hl.
+  - destruct d; cbn in *; [|lia]. split.
+    + intros H; inversion H; constructor.
+    + intros H; inversion H; reflexivity.
   - destruct d as [|k r]; cbn [tcp_opts].
-    { split; [discriminate|]. intros H; inversion H. }
+    { split.
+      - intros H; inversion H; constructor.
+      - intros H; inversion H; reflexivity. }
     cbn [length] in Hl.
     destruct (k =? 0)%N eqn:E0.
-    { split; [discriminate|]. intros H. inversion H; subst; lia. }
+    { assert (k = 0%N) by lia; subst k. split.
+      - intros H; inversion H; constructor.
+      - intros H; inversion H; subst; try lia; reflexivity. }
     destruct (k =? 1)%N eqn:E1.
-    { assert (k = 1%N) by lia; subst k. rewrite IH by lia. split.
-      - intros H; constructor; exact H.
-      - intros H. inversion H; subst; try lia; assumption. }
+    { assert (k = 1%N) by lia; subst k.
+      destruct (tcp_opts f r) as [os1 c1] eqn:Er. split.
+      - intros H; inversion H; subst. constructor. apply (IH r os1 c); [lia|exact Er].
+      - intros H; inversion H; subst; try lia.
+        match goal with H : opt_walk r _ _ |- _ => apply (IH r) in H; [|lia]; rewrite Er in H; inversion H end.
+        reflexivity. }
     destruct r as [|l r'].
     { split.
-      - intros _; constructor; lia.
-      - intros _; reflexivity. }
+      - intros H; inversion H; constructor; lia.
+      - intros H; inversion H; subst; try lia; reflexivity. }
     destruct (l <? 2)%N eqn:El.
-    { split; [discriminate|]. intros H; inversion H; subst; lia. }
+    { split.
+      - intros H; inversion H; apply ow_short; lia.
+      - intros H; inversion H; subst; try lia; reflexivity. }
     destruct (Z.of_N l >? zlen (k :: l :: r')) eqn:Eg.
-    { split; [discriminate|]. intros H; inversion H; subst; lia. }
-    rewrite IH.
-    + split.
-      * intros H. apply lone_skip; try lia; exact H.
-      * intros H. inversion H; subst; try lia; assumption.
-    + rewrite skipn_length. cbn [length] in *. lia.
+    { split.
+      - intros H; inversion H; apply ow_over; lia.
+      - intros H; inversion H; subst; try lia; reflexivity. }
+    assert (Hs : (length (skipn (N.to_nat l) (k :: l :: r')) <= f)%nat).
+    { rewrite skipn_length. cbn [length] in *. lia. }
+    destruct (tcp_opts f (skipn (N.to_nat l) (k :: l :: r'))) as [os1 c1] eqn:Er. split.
+    + intros H; inversion H; subst. apply ow_opt; try lia. apply (IH _ os1 c Hs). exact Er.
+    + intros H; inversion H; subst; try lia.
+      match goal with H : opt_walk (skipn _ _) _ _ |- _ => apply (IH _ _ _ Hs) in H; rewrite Er in H; inversion H end.
+      reflexivity.
+Qed.
+
+Lemma opt_walk_exists d : opt_walk d (fst (tcp_opts (length d) d)) (snd (tcp_opts (length d) d)).
+Proof. apply (tcp_opts_walk_iff (length d)); [lia|]. destruct (tcp_opts (length d) d); reflexivity. Qed.
+
+Lemma opt_walk_functional d os1 c1 os2 c2 :
+  opt_walk d os1 c1 -> opt_walk d os2 c2 -> os1 = os2 /\ c1 = c2.
+Proof.
+  intros H1 H2.
+  apply (tcp_opts_walk_iff (length d) d _ _ (le_n _)) in H1.
+  apply (tcp_opts_walk_iff (length d) d _ _ (le_n _)) in H2.
+  rewrite H1 in H2. inversion H2. auto.
+Qed.
+
+(* more fuel changes nothing *)
+Lemma tcp_opts_fuel_indep f1 f2 d :
+  (length d <= f1)%nat -> (length d <= f2)%nat -> tcp_opts f1 d = tcp_opts f2 d.
+Proof.
+  intros H1 H2. destruct (tcp_opts f2 d) as [os c] eqn:E.
+  apply (tcp_opts_walk_iff f1 d os c H1). apply (tcp_opts_walk_iff f2 d os c H2). exact E.
+Qed.
+
+(* every entry accounts for at least one option byte: at most as many entries as bytes *)
+Lemma opt_walk_count d os c : opt_walk d os c -> (length os <= length d)%nat.
+Proof.
+  induction 1; cbn [length] in *; try lia.
+  rewrite skipn_length in IHopt_walk. cbn [length] in *. lia.
+Qed.
+
+Lemma tcp_opts_count fuel d : (length (fst (tcp_opts fuel d)) <= length d)%nat.
+Proof.
+  revert d. induction fuel as [|f IH]; intros d.
+  - destruct d; cbn; lia.
+  - destruct d as [|k r]; cbn [tcp_opts]; [cbn; lia|].
+    destruct (k =? 0)%N; [cbn; lia|].
+    destruct (k =? 1)%N.
+    { specialize (IH r). destruct (tcp_opts f r) as [os c]. cbn [fst length] in *. lia. }
+    destruct r as [|l r']; [cbn; lia|].
+    destruct (l <? 2)%N eqn:El; [cbn; lia|].
+    destruct (Z.of_N l >? zlen (k :: l :: r')) eqn:Eg; [cbn; lia|].
+    specialize (IH (skipn (N.to_nat l) (k :: l :: r'))).
+    destruct (tcp_opts f (skipn (N.to_nat l) (k :: l :: r'))) as [os c].
+    rewrite skipn_length in IH. cbn [fst length] in *. lia.
+Qed.
+
+(* a run of Nops of ANY length in front of an option area adds one entry per Nop and
+   leaves the rest of the walk as it is *)
+Lemma opt_walk_nops k : forall tail os c,
+  opt_walk tail os c -> opt_walk (repeat 1%N k ++ tail) (repeat (1%N, 1%N) k ++ os) c.
+Proof. induction k as [|k IH]; intros tail os c H; cbn [repeat app]; [exact H|constructor; auto]. Qed.
+
+(* End-of-list after a run of Nops of any length: the walk stops there, whatever follows *)
+Lemma opt_walk_nops_eol k rest :
+  opt_walk (repeat 1%N k ++ 0%N :: rest) (repeat (1%N, 1%N) k ++ [(0%N, 1%N)]) 0.
+Proof. apply opt_walk_nops. constructor. Qed.
+
+(* the repaired walk reports exactly the lone-kind layouts with its new error *)
+Lemma opt_walk_err5_lone d os c : opt_walk d os c -> c = 5 -> lone_kind d.
+Proof.
+  induction 1; intros Hc; try discriminate.
+  - constructor; auto.
+  - constructor; auto.
+  - apply lone_skip; auto.
+Qed.
+
+Lemma lone_opt_walk d : lone_kind d -> exists os, opt_walk d os 5.
+Proof.
+  induction 1.
+  - eexists; constructor; auto.
+  - destruct IHlone_kind as [os Hos]. eexists; constructor; eauto.
+  - destruct IHlone_kind as [os Hos]. eexists; apply ow_opt; eauto.
+Qed.
+
+Lemma tcp_opts_lone_iff fuel : forall d,
+  (length d <= fuel)%nat -> (snd (tcp_opts fuel d) = 5 <-> lone_kind d).
+Proof.
+  intros d Hl. split.
+  - intros H. destruct (tcp_opts fuel d) as [os c] eqn:E. cbn [snd] in H.
+    apply (tcp_opts_walk_iff fuel d os c Hl) in E. eapply opt_walk_err5_lone; eauto.
+  - intros H. destruct (lone_opt_walk d H) as [os Hos].
+    apply (tcp_opts_walk_iff fuel d os 5 Hl) in Hos. rewrite Hos. reflexivity.
 Qed.
 
 Definition tcp_off (d : bytes) : Z := byte_at d 12 / 16.
@@ -156,8 +259,7 @@ Proof.
   destruct (byte_at d 12 / 16 <? 5); [discriminate|].
   destruct (byte_at d 12 / 16 * 4 >? zlen d); [discriminate|].
   set (o := slice d 20 (byte_at d 12 / 16 * 4)).
-  destruct (tcp_opts (length o) o 0) as [n|c|s'] eqn:Eo; try discriminate.
-  exfalso; eapply tcp_opts_no_panic; eauto.
+  destruct (tcp_opts (length o) o) as [os c]. discriminate.
 Qed.
 
 (* the two formerly fatal layouts are now errors *)
@@ -173,7 +275,72 @@ Proof.
   destruct (byte_at d 12 / 16 <? 5) eqn:E2; [lia|].
   destruct (byte_at d 12 / 16 * 4 >? zlen d) eqn:E3; [lia|].
   set (o := slice d 20 (byte_at d 12 / 16 * 4)) in *.
-  apply (tcp_opts_lone_iff (length o) o 0 (le_n _)) in L. rewrite L. eauto.
+  apply (tcp_opts_lone_iff (length o) o (le_n _)) in L.
+  destruct (tcp_opts (length o) o) as [os c]. cbn [snd] in L. subst c. eauto.
+Qed.
+
+(* hdr.Options after Unmarshal, for EVERY segment: exactly the entries of the walk over
+   data[20:DataOffset*4] (whenever the fixed header and the data offset are accepted),
+   hence never more entries than option bytes *)
+Lemma tcp_parse_opts_walk d h e :
+  tcp_parse d = THdr h e -> 20 <= zlen d -> 5 <= tcp_off d -> tcp_off d * 4 <= zlen d ->
+  opt_walk (tcp_optbytes d) (t_opts h) e.
+Proof.
+  unfold tcp_parse, tcp_off, tcp_optbytes. intros H H1 H2 H3.
+  destruct (zlen d <? 20) eqn:E1; [lia|].
+  destruct (byte_at d 12 / 16 <? 5) eqn:E2; [lia|].
+  destruct (byte_at d 12 / 16 * 4 >? zlen d) eqn:E3; [lia|].
+  set (o := slice d 20 (byte_at d 12 / 16 * 4)) in *.
+  destruct (tcp_opts (length o) o) as [os c] eqn:Eo.
+  inversion H; subst; cbn [t_opts].
+  apply (tcp_opts_walk_iff (length o) o os e (le_n _)). exact Eo.
+Qed.
+
+Lemma tcp_parse_opts_outside d h e :
+  tcp_parse d = THdr h e -> (zlen d < 20 \/ tcp_off d < 5 \/ zlen d < tcp_off d * 4) ->
+  t_opts h = [] /\ e <> 0.
+Proof.
+  unfold tcp_parse, tcp_off. intros H Ho.
+  destruct (zlen d <? 20) eqn:E1; [inversion H; subst; cbn; split; [reflexivity|discriminate]|].
+  destruct (byte_at d 12 / 16 <? 5) eqn:E2; [inversion H; subst; cbn; split; [reflexivity|discriminate]|].
+  destruct (byte_at d 12 / 16 * 4 >? zlen d) eqn:E3; [inversion H; subst; cbn; split; [reflexivity|discriminate]|].
+  lia.
+Qed.
+
+Lemma byte_at_wf d i : wf_bytes d = true -> 0 <= byte_at d i < 256.
+Proof.
+  intros Hw. unfold byte_at.
+  destruct (nth_in_or_default (Z.to_nat i) d 0%N) as [Hin|Hd]; [|rewrite Hd; lia].
+  unfold wf_bytes in Hw. rewrite forallb_forall in Hw. specialize (Hw _ Hin).
+  unfold byteb in Hw. lia.
+Qed.
+
+Lemma tcp_parse_opts_count d h e :
+  tcp_parse d = THdr h e ->
+  zlen (t_opts h) <= Z.max 0 ((t_off h - 5) * 4) /\
+  (wf_bytes d = true -> zlen (t_opts h) <= 40).
+Proof.
+  intros H.
+  assert (Hb : zlen (t_opts h) <= Z.max 0 ((t_off h - 5) * 4)).
+  { revert H. unfold tcp_parse.
+    destruct (zlen d <? 20) eqn:E1; [intros H; inversion H; subst; cbn; lia|].
+    destruct (byte_at d 12 / 16 <? 5) eqn:E2; [intros H; inversion H; subst; cbn; lia|].
+    destruct (byte_at d 12 / 16 * 4 >? zlen d) eqn:E3; [intros H; inversion H; subst; cbn; lia|].
+    set (o := slice d 20 (byte_at d 12 / 16 * 4)) in *.
+    pose proof (tcp_opts_count (length o) o) as Hc.
+    destruct (tcp_opts (length o) o) as [os c] eqn:Eo.
+    intros H; inversion H; subst; cbn [t_opts t_off fst] in *.
+    assert (Hlen : zlen o = byte_at d 12 / 16 * 4 - 20) by (apply slice_length; lia).
+    unfold zlen in *. lia. }
+  split; [exact Hb|].
+  intros Hw.
+  assert (Hoff : t_off h <= 15).
+  { revert H. unfold tcp_parse. pose proof (byte_at_wf d 12 Hw) as B.
+    destruct (zlen d <? 20); [intros H; inversion H; subst; cbn; lia|].
+    destruct (byte_at d 12 / 16 <? 5); [intros H; inversion H; subst; cbn [t_off]; lia|].
+    destruct (byte_at d 12 / 16 * 4 >? zlen d); [intros H; inversion H; subst; cbn [t_off]; lia|].
+    destruct (tcp_opts _ _) as [os c]. intros H; inversion H; subst; cbn [t_off]; lia. }
+  lia.
 Qed.
 
 (* ------------------------------------------------------------------ one frame *)
